@@ -941,8 +941,22 @@ def r6(ctx):
         consts = {a.arg for a in fac.node.args.args}
         packers = [d for d in walk(fac.node, into_defs=True) if isinstance(d, (ast.FunctionDef, ast.Lambda)) and d is not fac.node
                    and any(call_attr(c) == "pack" for c in calls(d, into_defs=True))]
+        # functools.partial(<module-level function>, <bound args>): the function is the packer, its remaining
+        # parameter the value, the bound ones are constants of the factory
+        partials = {}
+        for c in calls(fac.node, into_defs=True):
+            if (ap(c.func) or "").split(".")[-1] == "partial" and c.args and isinstance(c.args[0], ast.Name):
+                for g in repo.funcs.get(c.args[0].id, []):
+                    if g.module is fac.module and g.cls is None and g.parent_fn is None and \
+                            any(call_attr(x) == "pack" for x in calls(g.node, into_defs=True)):
+                        partials[id(g.node)] = (g.node, len(c.args) - 1 + len(c.keywords))
+        packers = packers + [n for n, _k in partials.values()]
         for d in packers:
             params = [a.arg for a in d.args.args]
+            if id(d) in partials:
+                nbound = partials[id(d)][1]
+                consts = consts | set(params[:nbound])
+                params = params[nbound:]
             if len(params) != 1:
                 raise AnalysisError(f"C02.R6: {fname}: packer with parameters {params}")
             var = params[0]
